@@ -222,6 +222,7 @@ func Assign(left, right value.Value) error {
 		case value.BackendType: // BACKEND = BACKEND
 			rv := value.Unwrap[*value.Backend](right)
 			lv.Value = rv.Value
+			lv.Director = rv.Director
 		default:
 			return errors.WithStack(fmt.Errorf("invalid assignment for BACKEND type, got %s", right.Type()))
 		}
